@@ -192,6 +192,23 @@ def reported_costs(run, ct, rng, quick):
     snaps, descs = [], []
     nn = 40 if quick else 400
     pool = nets.net_pool(rng, nn, nmin=2, nmax=7)
+    # structured members: a scalar factor, tensors with identical index sets and an index carried by all the other tensors
+    # (simplification passes interact: de-duplication can leave an index on every remaining term)
+    for _ in range(6 if quick else 60):
+        dims = [rng.randint(2, 3) for _ in range(6)]
+        c, f, d_, e_ = 1, 2, 3, 4
+        inputs = [[], [c, f], [c, f], [c, d_], [c, e_]]
+        if rng.random() < 0.5:
+            inputs[0] = [5, 5]                       # a fully traced tensor instead of an empty one
+        if rng.random() < 0.5:
+            inputs.append([c, f])
+        if rng.random() < 0.5:
+            inputs.append([c, 6])
+        out = [d_, e_] + ([6] if any(6 in t for t in inputs) else [])
+        rng.shuffle(inputs)
+        used = sorted({x for t in inputs for x in t})
+        ren = {x: k + 1 for k, x in enumerate(used)}
+        pool.append(nets.Net([[ren[x] for x in t] for t in inputs], [ren[x] for x in out], [dims[x - 1] for x in used], kind="dedup+batch"))
     for net in pool:
         inp, out, size = net.c_inputs(), net.c_output(), net.c_sizes()
         seed = rng.randrange(10**6)
